@@ -37,9 +37,21 @@ typedef struct verif_attr_list *LPPROC_THREAD_ATTRIBUTE_LIST;
 #define HANDLE_FLAG_INHERIT 0x00000001u
 #define PROC_THREAD_ATTRIBUTE_HANDLE_LIST 0x00020002u
 #define CTRL_BREAK_EVENT 1
+#define STD_INPUT_HANDLE ((DWORD) -10)
+#define STD_OUTPUT_HANDLE ((DWORD) -11)
+#define STD_ERROR_HANDLE ((DWORD) -12)
+#define GENERIC_READ 0x80000000u
+#define GENERIC_WRITE 0x40000000u
+#define FILE_SHARE_READ 0x00000001u
+#define FILE_SHARE_WRITE 0x00000002u
+#define OPEN_ALWAYS 4u
+#define FILE_ATTRIBUTE_NORMAL 0x00000080u
 #define CP_UTF8 65001u
 #define MB_ERR_INVALID_CHARS 0x00000008u
 
+#define ERROR_INVALID_HANDLE 6u
+#define ERROR_INVALID_PARAMETER 87u
+#define ERROR_BROKEN_PIPE 109u
 #define ERROR_NOT_ENOUGH_MEMORY 8u
 #define ERROR_INSUFFICIENT_BUFFER 122u
 #define ERROR_CALL_NOT_IMPLEMENTED 120
@@ -96,3 +108,5 @@ BOOL GenerateConsoleCtrlEvent(DWORD ev, DWORD group);
 BOOL TerminateProcess(HANDLE h, UINT code);
 BOOL CloseHandle(HANDLE h);
 int MultiByteToWideChar(UINT cp, DWORD flags, LPCCH src, int srclen, LPWSTR dst, int dstlen);
+HANDLE GetStdHandle(DWORD id);
+HANDLE CreateFileW(LPCWSTR name, DWORD access, DWORD share, LPSECURITY_ATTRIBUTES sa, DWORD disposition, DWORD flags, HANDLE tmpl);
